@@ -6,8 +6,8 @@ import tempfile
 import time
 import z3
 
-Z3_TIMEOUT_MS = int(os.environ.get("PYVC_Z3_TIMEOUT_MS", "10000"))
-CLI_TIMEOUT_S = int(os.environ.get("PYVC_CLI_TIMEOUT_S", "15"))
+Z3_TIMEOUT_MS = int(os.environ.get("PYVC_Z3_TIMEOUT_MS", "8000"))
+CLI_TIMEOUT_S = int(os.environ.get("PYVC_CLI_TIMEOUT_S", "8"))
 
 
 def delambda(fmls):
